@@ -76,7 +76,8 @@ class FISTA(BaseSolver):
                 else:
                     grad = construct_grad(X, y, z, X @ z, datafit, all_features)
 
-            step = 1 / lipschitz
+            # all-zero design: the datafit is constant, any step does (1 / 0 is undefined)
+            step = 1 / lipschitz if lipschitz != 0 else 1.
             z -= step * grad
             if hasattr(penalty, "prox_vec"):
                 w = penalty.prox_vec(z, step)
